@@ -431,7 +431,16 @@ func genC01(seed uint64, tier Tier) *Case {
 		}
 		armed := g.r.Bool(0.75)
 		if armed {
-			c.Faults = append(c.Faults, g.crashFault(round, []string{".docs", ".meta", ".docs", ".meta", ""}, 2*nbulks+1))
+			f := g.crashFault(round, []string{".docs", ".meta", ".docs", ".meta", ""}, 2*nbulks+1)
+			if g.r.Bool(0.15) {
+				// not a crash: one write to the active files fails (disk error, disk full, short write) and the store
+				// goes on; the bulk it belonged to is not acknowledged, whatever is acknowledged afterwards has to
+				// survive the restarts like any other bulk
+				f.Action = []string{"eio", "enospc", "short"}[g.r.Intn(3)]
+				f.Op, f.After = "write", false
+				f.PathSuffix = []string{".meta", ".docs"}[g.r.Intn(2)]
+			}
+			c.Faults = append(c.Faults, f)
 			c.Steps = append(c.Steps, Step{Kind: "arm", Group: round})
 		}
 		c.Steps = append(c.Steps, Step{Kind: "par", Clients: clients})
